@@ -80,6 +80,13 @@ theorem handler_reads_hashed :
     ∧ (∀ f ∈ MsgOracleSetUpdatedClaim.readFields, f ∈ MsgOracleSetUpdatedClaim.hashedFields ∨ f ∈ notDemanded) := by
   decide
 
+/-- what the keeper reads through the interface `types.ExternalClaim` — the event nonce (store key, contiguity, last
+observed nonce) and the block height (`SetLastObservedBlockHeight`, per-oracle height) — is hashed by every type -/
+theorem interface_reads_hashed :
+    ∀ f ∈ externalClaimReads, f ∈ MsgSendToFxClaim.hashedFields ∧ f ∈ MsgBridgeCallClaim.hashedFields
+      ∧ f ∈ MsgBridgeCallResultClaim.hashedFields ∧ f ∈ MsgSendToExternalClaim.hashedFields
+      ∧ f ∈ MsgBridgeTokenClaim.hashedFields ∧ f ∈ MsgOracleSetUpdatedClaim.hashedFields := by decide
+
 /-- the one struct field that is not demanded of the hash, `MsgBridgeTokenClaim.Name`, is indeed never read by the keeper -/
 theorem bridgeToken_name_never_read : "Name" ∉ MsgBridgeTokenClaim.readFields := by decide
 
@@ -363,6 +370,29 @@ theorem tallied_together_agree {η : Type} [DecidableEq η] (H : Str → η) (op
     obtain ⟨k₂, v₂⟩ := valid _ pw
     exact anyClaim_path_injective k₁ k₂ _ _ v₁ v₂ (collisionFree _ pv _ pw (hk.trans hk'.symm))
 
+/-- deferred execution: what `ExecuteClaim` runs (send-to-fx, bridge-call and bridge-call-result claims are stored by
+`SavePendingExecuteClaim` and run later from the stored copy) is a claim object an observed attestation handed to the
+handler, so it has the type and every effect-relevant field of every vote tallied for it — the effect applied on fxcore
+is the one the quorum voted for, whenever and by whomever `ExecuteClaim` is called -/
+theorem ran_is_voted {η : Type} [DecidableEq η] (H : Str → η) (ops : List Op)
+    (valid : ∀ c ∈ Op.claims ops, ∃ k, c.valid k = true)
+    (collisionFree : ∀ c₁ ∈ Op.claims ops, ∀ c₂ ∈ Op.claims ops, H c₁.path = H c₂.path → c₁.path = c₂.path) :
+    ∀ c ∈ (run (fun c => H c.path) {} ops).ran,
+      ∃ e ∈ (run (fun c => H c.path) {} ops).executed, e.claim = c ∧ ∀ v ∈ e.tallied, v.2.effect = c.effect := by
+  intro c hc
+  obtain ⟨e, he, hec⟩ := (pendInv_run (fun c => H c.path) ops {} pendInv_init).2 c hc
+  exact ⟨e, he, hec, fun v hv => hec ▸ executed_is_voted H ops valid collisionFree e he v hv⟩
+
+/-- the stored copy waiting for `ExecuteClaim` under an event nonce is such a claim object, of that nonce -/
+theorem pending_is_voted {η : Type} [DecidableEq η] (H : Str → η) (ops : List Op)
+    (valid : ∀ c ∈ Op.claims ops, ∃ k, c.valid k = true)
+    (collisionFree : ∀ c₁ ∈ Op.claims ops, ∀ c₂ ∈ Op.claims ops, H c₁.path = H c₂.path → c₁.path = c₂.path) :
+    ∀ p ∈ (run (fun c => H c.path) {} ops).pending, p.2.nonce = p.1 ∧
+      ∃ e ∈ (run (fun c => H c.path) {} ops).executed, e.claim = p.2 ∧ ∀ v ∈ e.tallied, v.2.effect = p.2.effect := by
+  intro p hp
+  obtain ⟨hn, e, he, hec⟩ := (pendInv_run (fun c => H c.path) ops {} pendInv_init).1 p hp
+  exact ⟨hn, e, he, hec, fun v hv => hec ▸ executed_is_voted H ops valid collisionFree e he v hv⟩
+
 /-- with an injective hash (the path itself as the key) no assumption is left -/
 theorem executed_is_voted_ideal (ops : List Op) (valid : ∀ c ∈ Op.claims ops, ∃ k, c.valid k = true) :
     ∀ e ∈ (run (fun c => c.path) {} ops).executed, ∀ v ∈ e.tallied, v.2.effect = e.claim.effect :=
@@ -449,6 +479,10 @@ example : ({ EventNonce := 7, BlockHeight := 9, BatchNonce := 3, TokenContract :
 oracle's vote executes the claim that two oracles voted for -/
 example : (run (fun c => c.path) {} legacyOps).executed = [] := by decide +kernel
 example : ((run (fun c => c.path) {} (legacyOps ++ [.vote 2 (.bc wCall) false])).executed.map (·.tallied.map (·.1))) = [[0, 2]] := by
+  decide +kernel
+/-- … is stored for `ExecuteClaim`, which then runs exactly that claim -/
+example : (run (fun c => c.path) {} (legacyOps ++ [.vote 2 (.bc wCall) false])).pending.map (·.1) = [1] := by decide +kernel
+example : (run (fun c => c.path) {} (legacyOps ++ [.vote 2 (.bc wCall) false, .execute 1 false])).ran = [.bc wCall] := by
   decide +kernel
 
 end FxVerif.Props.C03
